@@ -14,7 +14,7 @@ except Exception:
     pass
 
 checks = []
-for pid in sorted(PROPS):
+for pid in sorted(k for k in PROPS if k != 'DBG'):
     p = PROPS[pid]
     checks.append({
         "property_id": pid,
@@ -50,11 +50,11 @@ man = {
         "add_only": True,
     },
     "engines": [
-        {"name": "mirdump", "path": "/verif/mirdump/main.rs", "serves_properties": sorted(PROPS),
+        {"name": "mirdump", "path": "/verif/mirdump/main.rs", "serves_properties": sorted(k for k in PROPS if k != "DBG"),
          "kind_free_text": "rustc driver (rustc_public): dumps monomorphic MIR of everything reachable from the harness roots, regenerated from /repo on every run"},
-        {"name": "mirsym", "path": "/verif/mirsym", "serves_properties": sorted(PROPS),
+        {"name": "mirsym", "path": "/verif/mirsym", "serves_properties": sorted(k for k in PROPS if k != "DBG"),
          "kind_free_text": "forking symbolic executor over that MIR; z3 decides branches and property queries; std containers summarised at value level"},
-        {"name": "xh", "path": "/verif/harness", "serves_properties": sorted(PROPS),
+        {"name": "xh", "path": "/verif/harness", "serves_properties": sorted(k for k in PROPS if k != "DBG"),
          "kind_free_text": "harness crate: Rust harnesses + reference oracles; the same code is the native replay program"},
     ],
     "checks": checks,
